@@ -12,7 +12,7 @@ from eascheduler.executor import ExecutorBase
 from eascheduler.job_control import CountdownJobControl, DateTimeJobControl, OneTimeJobControl
 from eascheduler.job_stores import JobStoreBase
 from eascheduler.jobs import CountdownJob, DateTimeJob, OneTimeJob
-from eascheduler.jobs.base import IdType
+from eascheduler.jobs.base import STATUS_FINISHED, IdType, JobBase
 from eascheduler.schedulers import SchedulerBase
 
 
@@ -24,6 +24,17 @@ class JobBuilder:
         self._scheduler: Final = scheduler
         self._executor: Final = executor
         self._job_store: Final = job_store
+
+    def _add_job(self, job: JobBase) -> None:
+        # add to the store first so a rejected job is never scheduled
+        if self._job_store is not None:
+            self._job_store.add_job(job)
+        try:
+            job.link_scheduler(self._scheduler)
+        except Exception:
+            if job.status is not STATUS_FINISHED:
+                job.job_finish()
+            raise
 
     def countdown(self, secs: HINT_POS_TIMEDELTA, coro_func: Callable[..., Awaitable[Any]],
                   *args: Any, job_id: IdType | None = None, **kwargs: Any) -> CountdownJobControl:
@@ -37,9 +48,7 @@ class JobBuilder:
         :return: Created job
         """
         job = CountdownJob(self._executor(coro_func, args, kwargs), get_pos_timedelta_secs(secs), job_id=job_id)
-        job.link_scheduler(self._scheduler)
-        if self._job_store is not None:
-            self._job_store.add_job(job)
+        self._add_job(job)
         return CountdownJobControl(job)
 
     def once(self, instant: HINT_INSTANT, coro_func: Callable[..., Awaitable[Any]],
@@ -54,9 +63,7 @@ class JobBuilder:
         :return: Created job
         """
         job = OneTimeJob(self._executor(coro_func, args, kwargs), get_instant(instant), job_id=job_id)
-        job.link_scheduler(self._scheduler)
-        if self._job_store is not None:
-            self._job_store.add_job(job)
+        self._add_job(job)
         return OneTimeJobControl(job)
 
     def at(self, trigger: TriggerObject, coro_func: Callable[..., Awaitable[Any]],
@@ -71,7 +78,5 @@ class JobBuilder:
         :return: Created job
         """
         job = DateTimeJob(self._executor(coro_func, args, kwargs), _get_producer(trigger), job_id=job_id)
-        job.link_scheduler(self._scheduler)
-        if self._job_store is not None:
-            self._job_store.add_job(job)
+        self._add_job(job)
         return DateTimeJobControl(job)
